@@ -4,14 +4,14 @@ import json
 
 CLAIMED = {
     "C02": dict(
-        text="Lean 4 (Props/C02.lean): what is logic in the element-wise functions — two's-complement wrap is a ring homomorphism (add/sub/mul/neg computed in a wider integer type and wrapped equal the computation in the operand's width; narrowing twice is narrowing once; in-range values are preserved), floor/sign conventions of floor_divide/remainder (division identity, sign of the divisor, truncating vs floored remainder with the proved counterexample and the correction ndonnx now applies). Floating-point kernels are opaque to Lean. The tie: every element-wise function x every dtype of its standard domain is evaluated on ALL values of the 8-bit/bool domains (all 65 536 pairs for binary functions), boundary sets of the wider integers and a 45-value float grid with NaN/inf/-0.0/extremes, eager and traced, and compared with NumPy exactly (bool/int) or within 4 ulp; totality on the domain is checked on the exhaustive function x dtype matrix (Gen/FnDtype*.lean, kernel-checked against Ndx.fnLaw).",
-        note="Trusted: Lean kernel; NumPy as the value oracle; onnxruntime's floating-point kernels are runtime behaviour exercised only (accuracy cannot be stated over Lean's opaque floats). ~30 recorded findings (float64 routed through float32, naive expm1/log1p/logaddexp, integer pow/floor_divide through floating point, uint64 >= 2**63 ordering, ...), each keyed by function/dtype/failure region.",
-        technique="Lean 4 proof of the integer routing lemmas + exhaustive small-domain value correspondence with NumPy",
+        text="Lean 4 (Props/C02.lean): what is logic in the element-wise functions — two's-complement wrap is a ring homomorphism (add/sub/mul/neg computed in a wider integer type and wrapped equal the computation in the operand's width; narrowing twice is narrowing once; in-range values are preserved), floor/sign conventions of floor_divide/remainder (division identity, sign of the divisor, truncating vs floored remainder with the proved counterexample and the correction ndonnx now applies). Floating-point kernels are opaque to Lean. The tie: every element-wise function x every dtype of its standard domain is evaluated on ALL values of the 8-bit/bool domains (all 65 536 pairs for binary functions), boundary sets of the wider integers and a 45-value float grid with NaN/inf/-0.0/extremes, eager and traced, and compared with NumPy exactly (bool/int) or within 4 ulp; totality on the domain is checked on the exhaustive function x dtype matrix (Gen/FnDtype*.lean, kernel-checked against Ndx.fnLaw). Graph level (Props/C02Graph.lean, Model/Graph.lean): for every integer/boolean element-wise function the family of exported graph shapes `gterms fn t` (native node, or routed through a wider type with Casts; remainder = Mod(fmod=1) + sign test + wrapping add + Where) is proved to evaluate to the specified value for every member, every integer dtype and every operand (hypotheses = exactly the recorded uint64>=2**63 and negative-int64-shift findings, each with a proved witness). Algorithm level (Model/IntArith.lean): fmodOfTmod_eq_fmod, remainderImpl_correct, left/right_shift_via_uint64, intOpImpl_eq_spec. Tie B: the check translates the graph the library exports for each (function, dtype) (harness/graphterm.py) and verifies it is a member of gterms; the matched term is evaluated in Lean on the exhaustive 8-bit and boundary grids (~1.9M evaluations) against onnxruntime.",
+        note="Trusted: Lean kernel; NumPy as the value oracle; onnxruntime's floating-point kernels are runtime behaviour exercised only (accuracy cannot be stated over Lean's opaque floats). ~30 recorded findings (float64 routed through float32, naive expm1/log1p/logaddexp, integer pow/floor_divide through floating point, uint64 >= 2**63 ordering, ...), each keyed by function/dtype/failure region. The Lean reading of the ONNX integer operators (Cast wraps, Mod(fmod=1) truncates, BitShift is logical on unsigned, Where selects) is an assumption validated on every run by the geval comparison; onnxruntime's int64 Mod deviates for large magnitudes (recorded finding). Translator harness/graphterm.py is trusted to render the exported graph faithfully.",
+        technique="Lean 4 proof: exported-graph terms evaluated to the specification for all operands (graph-level tie by a translator) + integer routing lemmas + exhaustive small-domain value correspondence with NumPy",
         design_ref="§7 C02"),
     "C04": dict(
-        text="Lean 4 (Props/C04.lean): for the model of variadic_op with any number of operands and NumPy broadcasting — mask rule (output null iff some contributing input is null), non-null outputs are the plain-data result, and payload non-interference (changing what is stored under nulls changes neither the output mask nor any non-null value), by induction over the operand list for an arbitrary pointwise operator; the same for where (condition null or selected branch null), for _transmute-based indexing/layout (null flag travels with its element) and for fill-with-neutral reductions (fold over filled values = fold over non-null values). The tie: paired-payload runs — every nullable input is materialised twice with different payloads (type extremes, NaN, inf, junk strings) and ~45 operations are evaluated eagerly and traced on both; results must agree, masks must follow the rule, non-null values must equal NumPy's plain-data result.",
+        text="Lean 4 (Props/C04.lean): for the model of variadic_op with any number of operands and NumPy broadcasting — mask rule (output null iff some contributing input is null), non-null outputs are the plain-data result, and payload non-interference (changing what is stored under nulls changes neither the output mask nor any non-null value), by induction over the operand list for an arbitrary pointwise operator; the same for where (condition null or selected branch null), for _transmute-based indexing/layout (null flag travels with its element) and for fill-with-neutral reductions (fold over filled values = fold over non-null values). The tie: paired-payload runs — every nullable input is materialised twice with different payloads (type extremes, NaN, inf, junk strings) and ~45 operations are evaluated eagerly and traced on both; results must agree, masks must follow the rule, non-null values must equal NumPy's plain-data result. Graph level (Props/C04Graph.lean): for the integer/boolean element-wise functions on nullable operands the exported null-mask graph must be a member of nullTerms2/1 and the values graph a member of gterms; null_graph_correct (mask = OR of the operands' masks for every member), eval_congr (a graph's value depends only on the inputs occurring in it), null_graph_ignores_values and values_graph_ignores_masks (payloads cannot reach the mask, masks cannot reach the values).",
         note="Trusted: Lean kernel; the model of variadic_op/where (tied by the paired-payload correspondence); which primitives are pointwise is not proved about the Python source — non-pointwise ones routed through variadic_op (sort, argsort, argmax) are recorded findings.",
-        technique="Lean 4 proof: non-interference by induction over operands + paired-payload metamorphic correspondence",
+        technique="Lean 4 proof: non-interference by induction over operands, structural payload independence of the exported graphs (graph-level tie) + paired-payload metamorphic correspondence",
         design_ref="§7 C04"),
     "C05": dict(
         text="Lean 4 (Props/C05.lean): the dict-merging fold of _build.py (collectAll) equals the documented interface — requests in order, a core array under its own name, a struct array as <name>_<field> recursively — whenever the flattened names are pairwise distinct (induction over requests and field trees), with the proved counterexample for clashing names; Gen/Schema.lean (regenerated every run): every dtype's schema name maps back to it, names are injective. The tie: random build signatures (unused inputs, constants-only, one array under two names, static/symbolic/unknown dims, 24 dtypes + a user struct dtype): onnx.checker full_check, onnxruntime load, names/order (vs the Lean model), element types, dims, schema, and schema-directed disassemble-run-assemble round trips.",
@@ -19,14 +19,14 @@ CLAIMED = {
         technique="Lean 4 proof: interface flattening by induction over dtype trees + build-signature correspondence",
         design_ref="§7 C05"),
     "C09": dict(
-        text="Lean 4 (Props/C09.lean): frame theorems on the propagation state machine — over every history, a cell that is never the target of _set keeps its graph term and value; every other transition allocates exactly one fresh cell; an in-place update replaces term and value together. The tie: (1) assignments x[idx] = v for every index form of C08, boolean masks, integer arrays, scalar/array/other-dtype updates and augmented operators vs NumPy, eager and traced, incl. immutability of the right-hand side; (2) a cell-sharing table over ~50 public call forms x 8 dtypes x {eager, lazy} (does the result share a core array with its argument, is the argument changed, does a write go through); (3) random histories over a pool of arrays vs a NumPy pool of independent copies.",
+        text="Lean 4 (Props/C09.lean): frame theorems on the propagation state machine — over every history, a cell that is never the target of _set keeps its graph term and value; every other transition allocates exactly one fresh cell; an in-place update replaces term and value together. The tie: (1) assignments x[idx] = v for every index form of C08, boolean masks, integer arrays, scalar/array/other-dtype updates and augmented operators vs NumPy, eager and traced, incl. immutability of the right-hand side; (2) a cell-sharing table over ~50 public call forms x 8 dtypes x {eager, lazy} (does the result share a core array with its argument, is the argument changed, does a write go through); (3) random histories over a pool of arrays vs a NumPy pool of independent copies. Value level (Props/C09Setitem.lean, Model/Setitem.lean = opx.setitem: index applied to the coordinate tensor, Expand, ScatterND): setitem_shape, setitem_frame (every element whose coordinates are not selected is untouched), setitem_hit (a selected position holds the broadcast update when the index selects each position once), slice_positions_nodup; tied by the driver command `setitem` on token data against NumPy and the implementation eager and traced (harness/setitemtie.py).",
         note="Trusted: Lean kernel; the state-machine model (tied by the C07 history correspondence); the sharing table is dumped by observing object identity of _CoreArray instances. The ScatterND-based setitem algorithm itself is tied by correspondence, not by a theorem.",
-        technique="Lean 4 proof: frame invariant by induction over histories + assignment/aliasing correspondence",
+        technique="Lean 4 proof: frame invariant by induction over histories, frame/hit theorems of the ScatterND-based assignment + assignment/aliasing correspondence",
         design_ref="§7 C09"),
     "C10": dict(
-        text="Lean 4 (Props/C10.lean): for every rank, every shape (extents 0 included) and every axis argument (None, integer of either sign, tuple, empty tuple) the shape produced by _normalize_axes + ONNX Reduce*(noop_with_empty_axes = axis is not None) is NumPy's keepdims rule (reduce_shape), negative axes alias their non-negative spelling, the empty tuple is a no-op, None reduces everything. The tie: 12 reductions + 6 Array methods x dtypes x shapes of rank 0-3 with extents 0-3 x all axis forms x keepdims x correction/include_initial vs NumPy (shape, accumulator dtype, values, neutral elements, first occurrence), eager and traced; result shapes also against the Lean model through the driver.",
+        text="Lean 4 (Props/C10.lean): for every rank, every shape (extents 0 included) and every axis argument (None, integer of either sign, tuple, empty tuple) the shape produced by _normalize_axes + ONNX Reduce*(noop_with_empty_axes = axis is not None) is NumPy's keepdims rule (reduce_shape), negative axes alias their non-negative spelling, the empty tuple is a no-op, None reduces everything. The tie: 12 reductions + 6 Array methods x dtypes x shapes of rank 0-3 with extents 0-3 x all axis forms x keepdims x correction/include_initial vs NumPy (shape, accumulator dtype, values, neutral elements, first occurrence), eager and traced; result shapes also against the Lean model through the driver. Value level (Props/C10Values.lean, Model/ReduceVal.lean): reduce_empty_is_neutral (a reduction over an empty extent yields the neutral element at every output position, any fold), reduce_no_axes (the empty tuple of axes returns the elements), reduceVals_length (the number of combined elements is the product of the reduced extents); tied by the driver command `reduce_val` on token data against NumPy and the implementation (harness/reducetie.py).",
         note="Trusted: Lean kernel; ONNX Reduce*/ArgMax/CumSum semantics as modelled (validated through onnxruntime by the same sweep); float accumulation order is runtime behaviour.",
-        technique="Lean 4 proof: reduced-shape theorem for all ranks/axes + NumPy correspondence sweep",
+        technique="Lean 4 proof: reduced-shape theorem for all ranks/axes, neutral-element and element-count theorems of the fold + NumPy correspondence sweep",
         design_ref="§7 C10"),
     "C11": dict(
         text="Lean 4 (Props/C11.lean): roll (Range/Add/Mod(fmod=0)/Gather) equals NumPy's rotation for every tensor rank, shape, axis and shift of any sign and magnitude (roll_axis, pointwise on index functions); x[::-1] selects n-1..0 for every extent (flip_slice_triple, from the C08 slice theorem); matrix_transpose's permutation swaps exactly the last two axes; _transmute moves every field by the same index map. The tie: 16 layout functions x 12 dtypes (core, string, nullable, a user struct dtype with a nested nullable field) x random admissible parameters with token data, compared field by field with NumPy, eager and traced; roll/flip additionally against the Lean model.",
@@ -44,9 +44,9 @@ CLAIMED = {
         technique="Lean 4 proof: Range/eye arithmetic lemmas + NumPy round-trip correspondence",
         design_ref="§7 C13"),
     "C14": dict(
-        text="Lean 4 (Props/C14.lean + Gen/CastMatrix.lean regenerated every run): the cast protocol model (nullable -> core raises a cast error, every other built-in cast returns the target dtype) holds for all 24x24 pairs and the dumped astype outcome matrix equals it (decide +kernel); mask rule of nullable casts; integer casts preserve every in-range value (two's-complement lemma); can_cast equals NumPy's safe-casting table, which is reflexive, transitive and never narrows. The tie: every ordered pair x boundary values of the source type in range of the target x masks {none, partial, full}, eager and traced, vs ndarray.astype; same-dtype casts yield independent arrays.",
+        text="Lean 4 (Props/C14.lean + Gen/CastMatrix.lean regenerated every run): the cast protocol model (nullable -> core raises a cast error, every other built-in cast returns the target dtype) holds for all 24x24 pairs and the dumped astype outcome matrix equals it (decide +kernel); mask rule of nullable casts; integer casts preserve every in-range value (two's-complement lemma); can_cast equals NumPy's safe-casting table, which is reflexive, transitive and never narrows. The tie: every ordered pair x boundary values of the source type in range of the target x masks {none, partial, full}, eager and traced, vs ndarray.astype; same-dtype casts yield independent arrays. Graph level (Props/C14Graph.lean): astype between the nine integer/boolean dtypes exports one Cast or the input itself (castTerms, checked against the exported graph by the translator); cast_int_int (two's-complement wrap into the target), cast_int_int_in_range (in-range values preserved), cast_int_bool, cast_bool_int.",
         note="Trusted: Lean kernel; float->int truncation, int->float rounding and number<->text conversion are performed by the Cast kernel and validated by the value sweep, not proved.",
-        technique="Lean 4 proof: decide +kernel over the regenerated cast matrix + boundary-value correspondence",
+        technique="Lean 4 proof: decide +kernel over the regenerated cast matrix, value theorems of the exported Cast graphs (graph-level tie) + boundary-value correspondence",
         design_ref="§7 C14"),
     "C18": dict(
         text="Lean 4 (Props/C18.lean): the state machine has no component besides the heap — run (H ++ P) = run H then run P; cells that later activity never _set keep term and value (frame); observations are functions of the heap; the transition function is deterministic. The tie (metamorphic): a battery of traced models (using ndx.e/inf/nan/pi, nullable, strings, layout, constants-only) and random programs are built in child interpreters — fresh, with another PYTHONHASHSEED, and after histories of unrelated tracing/evaluation/builds/failing calls (incl. calls that receive library constants and user arrays of other dtypes); serialized bytes must be identical, two builds in a row identical, library constants and dtype singletons unchanged.",
